@@ -103,7 +103,7 @@ Proof.
   - exact Hn.
   - exact HP.
   - exact HO.
-  - intros Hnu Hdc k id o Hc. exact (HX Hnu Hdc k id o (Hsub k id o Hc)).
+  - intros k id o Hc. exact (HX k id o (Hsub k id o Hc)).
   - exact HH.
   - intros k Hp id o Hc.
     assert (E : c_present (cch s k) = false).
@@ -122,7 +122,7 @@ Lemma Inv_cache_add roots s k id o cn :
    (doCache cfg = false /\ c_strong cn = c_strong (cch s k) /\ c_weak cn = assoc_set id o (c_weak (cch s k)))) ->
   (o < length (heap s))%nat -> i_k (get_inst s o) = k -> i_id (get_inst s o) = id ->
   ok_base m s (get_inst s o) ->
-  (nu m = true -> i_obsolete (get_inst s o) = false) ->
+  i_obsolete (get_inst s o) = false ->
   (forall x, live s roots x -> i_obsolete (get_inst s x) = false -> i_k (get_inst s x) = k ->
              i_id (get_inst s x) = id -> row_exists s k id -> False) ->
   let s' := with_caches s (tset k cn (caches s)) in
@@ -160,8 +160,8 @@ Proof.
     rewrite Esame. destruct Hcn as [(Hdc' & Es & Ew)|(Hdc' & Es & Ew)]; [congruence|]. rewrite Es. now apply HN.
   - exact HP.
   - exact HO.
-  - intros Hnu Hdc k' id' o' Hc. destruct (Hcached k' id' o' Hc) as [Hc'|(-> & -> & ->)]; [exact (HX Hnu Hdc k' id' o' Hc')|].
-    split; [exact (Hcur Hnu)|]. destruct Hb as (_ & Hb & _). rewrite Hk, Hid in Hb. exact (Hb Hnu (Hcur Hnu)).
+  - intros k' id' o' Hc. destruct (Hcached k' id' o' Hc) as [Hc'|(-> & -> & ->)]; [exact (HX k' id' o' Hc')|].
+    split; [exact Hcur|]. intros Hnu. destruct Hb as (_ & Hb & _). rewrite Hk, Hid in Hb. exact (Hb Hnu Hcur).
   - exact HH.
   - intros k' Hp id' o' Hc. destruct (Hcached k' id' o' Hc) as [Hc'|(-> & -> & ->)].
     + destruct (kind_eq_dec k k') as [<-|Hne]; [rewrite Esame in Hp; congruence|].
@@ -212,7 +212,7 @@ Proof.
   - exact HP.
   - intros i Hi Hob. unfold s' in Hi. cbn in Hi. apply In_set_nth in Hi. destruct Hi as [->|Hi]; [|exact (HO i Hi Hob)].
     rewrite Ek, Eid. apply HO; [apply get_inst_In; exact Hlt|congruence].
-  - intros Hnu Hdc k id x Hc. destruct (HX Hnu Hdc k id x Hc) as (H1 & H2). destruct (Gk x) as (_ & _ & G3).
+  - intros k id x Hc. destruct (HX k id x Hc) as (H1 & H2). destruct (Gk x) as (_ & _ & G3).
     rewrite G3. auto.
   - unfold s'. cbn. apply Forall_set_nth; assumption.
   - exact HZ.
@@ -241,7 +241,7 @@ Proof.
   - exact HN.
   - exact HP.
   - intros i0 Hi Hob0. unfold s' in Hi. cbn in Hi. apply in_app_or in Hi. destruct Hi as [Hi|[<-|[]]]; [exact (HO i0 Hi Hob0)|congruence].
-  - intros Hnu Hdc k id x Hc. destruct (HK k id x Hc) as (H1 & _). rewrite (G x H1). exact (HX Hnu Hdc k id x Hc).
+  - intros k id x Hc. destruct (HK k id x Hc) as (H1 & _). rewrite (G x H1). exact (HX k id x Hc).
   - unfold s'. cbn. apply Forall_app. split; [exact HH|constructor; [exact Hhp|constructor]].
   - exact HZ.
   - intros x Hx. destruct (HL x Hx) as (Hxlt & Hxb & Hxr). split; [rewrite El; lia|].
@@ -278,8 +278,8 @@ Proof.
   - exact HN.
   - intros pk Hpk. specialize (HP pk Hpk). specialize (Hn (p_k pk)). lia.
   - intros i Hi Hob. destruct (HO i Hi Hob) as (H1 & H2). rewrite (Hrow _ _ H2). split; [exact H1|]. specialize (Hn (i_k i)). lia.
-  - intros Hnu Hdc k id x Hc. destruct (HX Hnu Hdc k id x Hc) as (H1 & H2). split; [exact H1|].
-    destruct (HK k id x Hc) as (_ & _ & _ & H4). unfold row_exists. rewrite (Hrow _ _ H4). exact H2.
+  - intros k id x Hc. destruct (HX k id x Hc) as (H1 & H2). split; [exact H1|]. intros Hnu.
+    destruct (HK k id x Hc) as (_ & _ & _ & H4). unfold row_exists. rewrite (Hrow _ _ H4). exact (H2 Hnu).
   - exact HH.
   - exact HZ.
   - intros x Hx. destruct (HL x Hx) as (Hxlt & Hxb & Hxr). split; [exact Hxlt|].
@@ -387,8 +387,8 @@ Proof.
     destruct (HO i0 Hi Hob0) as (H1 & H2). rewrite Tn. split; [|exact H2].
     rewrite Lk; [exact H1|]. destruct (kind_eq_dec (i_k i0) k) as [E1|]; [|auto]. destruct (Z.eq_dec (i_id i0) id) as [E2|]; [|auto].
     exfalso. rewrite E1, E2 in H1. congruence.
-  - intros Hnu Hdc k' id' x Hc. destruct (HX Hnu Hdc k' id' x Hc) as (H1 & H2). destruct (Gk x) as (_ & _ & G3).
-    rewrite G3. split; [exact H1|]. apply Rex. exact H2.
+  - intros k' id' x Hc. destruct (HX k' id' x Hc) as (H1 & H2). destruct (Gk x) as (_ & _ & G3).
+    rewrite G3. split; [exact H1|]. intros Hnu. apply Rex. exact (H2 Hnu).
   - unfold s'. cbn. apply Forall_set_nth; assumption.
   - exact HZ.
   - intros x Hx. assert (Hx' : live s roots x) by exact Hx. destruct (HL x Hx') as (Hxlt & Hxb & Hxr). split; [rewrite El; exact Hxlt|].
@@ -411,9 +411,9 @@ Lemma Inv_destroy roots s o c'' :
   Inv cfg m roots s -> live s roots o ->
   let i := get_inst s o in
   let k := i_k i in let id := i_id i in
-  ((c'' = caches s /\ (c_present (cch s k) = false \/ doCache cfg = false)) \/
-   (c'' = tset k (c_with (cch s k) (assoc_remove id (c_strong (cch s k))) (assoc_remove id (c_weak (cch s k)))
-                         (c_count (cch s k)) (c_offset (cch s k))) (caches s) /\ doCache cfg = true)) ->
+  ((c'' = caches s /\ c_present (cch s k) = false) \/
+   c'' = tset k (c_with (cch s k) (assoc_remove id (c_strong (cch s k))) (assoc_remove id (c_weak (cch s k)))
+                        (c_count (cch s k)) (c_offset (cch s k))) (caches s)) ->
   Inv cfg m roots
     (with_caches
        (with_heap
@@ -443,13 +443,13 @@ Proof.
   assert (Cs : forall k', (forall a x, In (a, x) (c_strong (cch s' k')) -> In (a, x) (c_strong (cch s k'))) /\
                           (forall a x, In (a, x) (c_weak (cch s' k')) -> In (a, x) (c_weak (cch s k'))) /\
                           c_present (cch s' k') = c_present (cch s k')).
-  { intros k'. destruct Hc'' as [(-> & _)|(-> & _)]; [unfold s', cch; cbn; auto|].
+  { intros k'. destruct Hc'' as [(-> & _)| ->]; [unfold s', cch; cbn; auto|].
     unfold s', cch. cbn. destruct (kind_eq_dec k k') as [<-|Hne]; [|rewrite tgo by exact Hne; auto].
     rewrite tgs. cbn. repeat split; intros a x Hi; apply In_assoc_remove in Hi; tauto. }
   assert (Csub : forall k' a x, cached s' k' a x -> cached s k' a x).
   { intros k' a x [Hc|Hc]; [left|right]; apply (Cs k'); exact Hc. }
   assert (Creg : forall k' a x, (k' <> k \/ a <> id) -> registered s k' a x -> registered s' k' a x).
-  { intros k' a x Hne. destruct Hc'' as [(-> & _)|(-> & _)]; [unfold s', registered, cch; cbn; auto|].
+  { intros k' a x Hne. destruct Hc'' as [(-> & _)| ->]; [unfold s', registered, cch; cbn; auto|].
     unfold s', registered, cch. cbn. destruct (kind_eq_dec k k') as [<-|Hk]; [|rewrite tgo by exact Hk; auto].
     rewrite tgs. cbn. rewrite !assoc_remove_other by (destruct Hne; congruence). auto. }
   assert (Clive : forall x, live s' roots x -> live s roots x).
@@ -463,23 +463,25 @@ Proof.
   - unfold s'. apply (TI_set k _ s HT). apply twf_delete. apply HT.
   - intros k' a x Hc. destruct (HK k' a x (Csub _ _ _ Hc)) as (H1 & H2 & H3 & H4). destruct (Gk x) as (G1 & G2).
     rewrite El, G1, G2, Tn. auto.
-  - intros k'. destruct Hc'' as [(-> & _)|(-> & _)]; [apply HD|].
+  - intros k'. destruct Hc'' as [(-> & _)| ->]; [apply HD|].
     unfold s', cch. cbn. destruct (kind_eq_dec k k') as [<-|Hne]; [|rewrite tgo by exact Hne; apply HD].
     rewrite tgs. cbn. apply NoDup_keys_assoc_remove. apply HD.
-  - intros Hdc k'. destruct Hc'' as [(-> & _)|(_ & Hdc')]; [now apply HN|congruence].
+  - intros Hdc k'. destruct Hc'' as [(-> & _)| ->]; [now apply HN|].
+    unfold s', cch. cbn. destruct (kind_eq_dec k k') as [<-|Hne]; [|rewrite tgo by exact Hne; now apply HN].
+    rewrite tgs. cbn [c_with c_strong]. pose proof (HN Hdc k) as E0. unfold cch in E0. fold k in E0. rewrite E0. reflexivity.
   - intros pk Hpk. rewrite Tn. exact (HP pk Hpk).
   - intros i0 Hi Hob0. unfold s' in Hi. cbn in Hi. apply In_set_nth in Hi. destruct Hi as [->|Hi].
     + cbn. fold k id. rewrite Tn. split; [exact Ls|]. destruct Hob as (B1 & _). exact B1.
     + destruct (HO i0 Hi Hob0) as (H1 & H2). rewrite Tn. split; [apply Ln; exact H1|exact H2].
-  - intros Hnu Hdc k' a x Hc. pose proof (Csub _ _ _ Hc) as Hc0. destruct (HX Hnu Hdc k' a x Hc0) as (H1 & H2).
+  - intros k' a x Hc. pose proof (Csub _ _ _ Hc) as Hc0. destruct (HX k' a x Hc0) as (H1 & H2).
     destruct (HK k' a x Hc0) as (_ & K2 & K3 & _).
     assert (Hne : k' <> k \/ a <> id).
     { destruct (kind_eq_dec k' k) as [->|Hk]; [|auto]. right.
-      destruct Hc'' as [(-> & [Hp|Hd])|(-> & _)]; [exfalso; exact (HZ k Hp a x Hc0)|congruence|].
+      destruct Hc'' as [(-> & Hp)| ->]; [exfalso; exact (HZ k Hp a x Hc0)|].
       unfold s', cached, cch in Hc. cbn in Hc. rewrite tgs in Hc. cbn in Hc.
       destruct Hc as [Hc|Hc]; apply In_assoc_remove in Hc; tauto. }
     assert (Hxo : x <> o) by (intros ->; fold i in K2, K3; fold k in K2; fold id in K3; destruct Hne; congruence).
-    rewrite (Go x Hxo). split; [exact H1|]. unfold row_exists. rewrite Lk by exact Hne. exact H2.
+    rewrite (Go x Hxo). split; [exact H1|]. intros Hnu. unfold row_exists. rewrite Lk by exact Hne. exact (H2 Hnu).
   - unfold s'. cbn. apply Forall_set_nth; [exact HH|]. apply (get_inst_hp _ _ _ _ o) in H. exact H.
   - intros k' Hp a x Hc. destruct (Cs k') as (_ & _ & E). rewrite E in Hp. exact (HZ k' Hp a x (Csub _ _ _ Hc)).
   - intros x Hx. pose proof (Clive x Hx) as Hx0. destruct (HL x Hx0) as (Hxlt & Hxb & Hxr). split; [rewrite El; exact Hxlt|].
